@@ -901,6 +901,11 @@ CHECKS['C04']['note'] = CHECKS['C04']['note'] + (
     'in both conventions twice, user-supplied temporaries, one operator object occurring several times (oracle-only protocol '
     'stream). Fixed: C04-F4 (ae56df3: A + v and f * v store a copy of the user vector).')
 
+CHECKS['C03']['note'] = CHECKS['C03']['note'] + (
+    ' The oracle also checks result ownership (the caller overwrites the returned element and reuses it as out; later calls must '
+    'be unchanged and no memory is shared with operator state; results that are views of x are listed, not violations) and memory '
+    'layout and size (x and out Fortran-ordered or strided, 2-d spaces above the BLAS threshold, bitwise against C copies).')
+
 NOT_YET = {}
 
 
